@@ -70,6 +70,19 @@ device ecu { services: [Other], }
 '''
 
 
+# protocol names that differ in case only, signal blocks with a selector but no count, several signal options
+OPTIONS_SCHEMA = '''version: "3"
+
+struct Pa { sel @0: u2, value @1: u8, other @2: i16, }
+struct Pb { x @0: u8, y @1: u8, }
+impl can for Pa { id: 7, bus: "b1", device: "ecu", signal value { mux_signal: "sel", }, }
+impl Can for Pa as PaUpper { id: 8, }
+impl cAN for Pb as PbMixed { id: 9, }
+impl CAN for Pb as PbAll { id: 10, }
+impl can for Pb { id: 11, device: "ecu", signal y { endianess: "big", }, }
+'''
+
+
 def digest(files):
     return hashlib.sha1(json.dumps(sorted(files.items())).encode()).hexdigest()[:20]
 
@@ -111,6 +124,9 @@ def run_c17(tier, seed):
     with open(os.path.join(sdir, "twin.fcp"), "w") as f:
         f.write(TWIN_SCHEMA)
     pool["gen:services-twin"] = os.path.join(sdir, "twin.fcp")
+    with open(os.path.join(sdir, "options.fcp"), "w") as f:
+        f.write(OPTIONS_SCHEMA)
+    pool["gen:options"] = os.path.join(sdir, "options.fcp")
     for i in range(4 if tier == "quick" else 20):
         sch = rand_can_schema(rng)
         p = os.path.join(sdir, "can%d.fcp" % i)
@@ -135,6 +151,13 @@ def run_c17(tier, seed):
             runs.append((base[(names.index(n) * 8 + k) % len(base)], {"s1": n, "s2": rng.choice(names)}))
     for h in picks:
         runs.append((h, {"s1": rng.choice(names), "s2": rng.choice(names)}))
+    # one parsed object handed to two DIFFERENT generators in a row (a generator must not leave marks on the tree)
+    for n in names:
+        for g1, g2 in (("can_c", "dbc"), ("dbc", "can_c"), ("cpp", "dbc"), ("can_c", "cpp"), ("dbc", "cpp"), ("cpp", "can_c")):
+            if tier == "quick" and not n.startswith("gen:") and (g1, g2) not in (("can_c", "dbc"), ("cpp", "can_c")):
+                continue
+            runs.append(([{"op": "parse", "s": "s1"}, {"op": "generate", "g": g1, "s": "s1", "mode": "reused"},
+                          {"op": "generate", "g": g2, "s": "s1", "mode": "reused"}], {"s1": n, "s2": n}))
     # two different schemas that declare the same names, one after the other in one process, in both orders
     gens = sorted(n for n in names if n.startswith("gen:can"))
     twins = [("gen:services", "gen:services-twin")] + [(a, b) for i, a in enumerate(gens) for b in gens[i + 1:]][:6 if tier == "quick" else 60]
@@ -143,13 +166,20 @@ def run_c17(tier, seed):
             for g1, g2 in (("dbc", "dbc"), ("can_c", "can_c"), ("cpp", "cpp"), ("nop", "can_c"), ("can_c", "dbc")):
                 runs.append(([{"op": "generate", "g": g1, "s": "s2", "mode": "fresh"}, {"op": "generate", "g": g2, "s": "s1", "mode": "fresh"}],
                              {"s1": x, "s2": y}))
+    # the schemas whose output could depend on set/dict order get every generator under eight more hash seeds
+    extra_seed = {}
+    for n in ("gen:options", "gen:devices", "gen:services"):
+        for g in ("cpp", "dbc", "can_c"):
+            for hs in range(3, 11):
+                extra_seed[len(runs)] = hs
+                runs.append(([{"op": "generate", "g": g, "s": "s1", "mode": "fresh"}], {"s1": n, "s2": n}))
     for i, (h, bind) in enumerate(runs):
         job = {"hist": h, "schemas": {k: pool[v] for k, v in bind.items()}, "bad": 'version: "3"\nstruct Broken { a @0: Nope,',
                "outdir": os.path.join(chk.workdir, "out")}
         p = os.path.join(chk.workdir, "job%d.json" % i)
         with open(p, "w") as f:
             json.dump(job, f)
-        s = seeds[i % len(seeds)]
+        s = extra_seed.get(i, seeds[i % len(seeds)])
         jobs.append((p, s))
         jmeta.append((h, bind, s))
     with ThreadPoolExecutor(max_workers=16) as ex:
